@@ -349,9 +349,74 @@ def check_corrupt(case):
         shutil.rmtree(w, ignore_errors=True)
 
 
+def check_pair(case):
+    """deviation bound 2: a progress-callback fault in a first attempt, a statement fault in a
+    second attempt on the same pooled connection, then a clean third attempt"""
+    opname = case['op']
+    op = _ops()[opname]
+    if opname not in _BASE:
+        _BASE[opname] = baseline(opname)
+    pre, counts, post_c, post_e = _BASE[opname]
+    V, digs, n = [], set(), 0
+    e3.install()
+    dbdir = env.fresh_db()
+    snap = pre_snapshot(op['pre'])
+    w = env.new_dir('c06p')
+    try:
+        for k in case['cbs']:
+            for st_n in case['sts']:
+                n += 1
+                env.restore(snap)
+                one = {'pair': True, 'op': opname, 'cbs': [k], 'sts': [st_n]}
+                outcome = []
+                for attempt, cfg in enumerate((('cb', k), ('st', st_n), (None, None))):
+                    e3.S.reset()
+                    if cfg[0] == 'cb':
+                        e3.S.cb_fire = cfg[1]
+                    elif cfg[0] == 'st':
+                        e3.S.st_fire = (cfg[1], 'before')
+                    raised = None
+                    sub = w / f'q{n}-{attempt}'
+                    try:
+                        perform(op, sub, e3.CountingProgress)
+                    except BaseException as exc:   # noqa: BLE001
+                        raised = type(exc)
+                        del exc
+                    gc.collect()
+                    fired = e3.S.fired
+                    e3.S.reset()
+                    outcome.append((raised.__name__ if raised else None, bool(fired)))
+                    now = observe.exact_dump(env.db_path())
+                    if cfg[0] is None:
+                        env.close_pool()
+                        final = observe.canonical_dump(env.db_path())
+                        if raised is not None and not (op['kind'] == 'remove'):
+                            V.append((f'{op["kind"]}:unusable-after-two-failures', f'{opname}: clean attempt after faults '
+                                      f'cb#{k}, st#{st_n} raised {raised.__name__}', None, one))
+                        elif final != post_c and op['kind'] != 'remove':
+                            V.append((f'{op["kind"]}:retry-result-differs:pair', f'{opname}: result after faults cb#{k}, '
+                                      f'st#{st_n} differs from the fault-free run', None, one))
+                    elif raised is not None and fired and now != pre:
+                        if 'close:' in fired and now == post_e:
+                            break      # the recorded close()-after-commit finding; nothing more to learn here
+                        V.append((f'{op["kind"]}:database-changed-by-failed-call:pair', f'{opname}: attempt {attempt} with '
+                                  f'[{fired}] changed the database', None, one))
+                        break
+                digs.add(repr(outcome))
+        return {'v': V, 'digs': digs, 'nt': len(digs), 'n': n}
+    finally:
+        e3.S.reset()
+        e3.uninstall()
+        env.drop_db(dbdir)
+        import shutil
+        shutil.rmtree(w, ignore_errors=True)
+
+
 def dispatch(case):
     if case.get('corrupt'):
         return check_corrupt(case)
+    if case.get('pair'):
+        return check_pair(case)
     return check(case)
 
 
@@ -379,6 +444,15 @@ def space(tier, seed):
                 # with sqlite's counter, so the quick tier uses a coarser but complete set of callbacks)
                 g = 20
                 chunks('vm', counts['vm'] // g + 1, 100, gran=g)
+    # deviation bound 2 (thorough; a rotating slice in quick)
+    for name in (('add-single', 'add-extension', 'add-two') if tier == 'thorough' else ('add-single',)):
+        c = _BASE[name][1]
+        cbs = list(range(1, c['cb'] + 1))
+        sts = list(range(1, c['st'] + 1))
+        if tier == 'quick':
+            cbs = [k for k in cbs if k % 6 == seed % 6]
+        for i in range(0, len(cbs), 4):
+            cases.append({'pair': True, 'op': name, 'cbs': cbs[i:i + 4], 'sts': sts})
     for doc in ('small', 'A1', 'C1', 'max'):
         total = 80
         for lo in range(0, total, 10):
